@@ -80,10 +80,7 @@ def sched_params(tier):
         ps += [P("wdelay", 0, 2), P("f1", 0, 1)]
     for j in range(D):
         ps += [P(f"gap{j}", 0, L), P(f"arm{j}", 0, 4)]
-    ps.append(P("env", 0, 4) if tier == "quick" else P("slow", 0, 1))
-    if tier != "quick":
-        ps.append(P("refused", 0, 2))
-        ps.append(P("injwait", 0, 1))
+    ps.append(P("env", 0, 4))
     return ps
 
 
@@ -98,13 +95,10 @@ def sched_fn(a, tier):
     wdelay = 1 if quick else pick(a["wdelay"], 3)
     fillers = [f0, 1 - f0] if quick else [f0, pick(a["f1"], 2)]
     # slow: an application-level listener with a 1-slot queue that subscribed first and never reads; refused: see below.
-    # quick tier: one of {neither, slow listener, refused publication first, private-context factory first}; thorough: the full product
+    # one of {neither, slow listener, refused publication first, private-context factory first, second waiter through @inject}
     # injwait: the second waiter gets the resource as an injected parameter of an @inject coroutine function
-    if quick:
-        envk = pick(a["env"], 5)
-        slow, refused, injwait = int(envk == 1), {2: 1, 3: 2}.get(envk, 0), int(envk == 4)
-    else:
-        slow, refused, injwait = pick(a["slow"], 2), pick(a["refused"], 3), pick(a["injwait"], 2)
+    envk = pick(a["env"], 5)
+    slow, refused, injwait = int(envk == 1), {2: 1, 3: 2}.get(envk, 0), int(envk == 4)
     tape = DeviationTape([(a[f"gap{j}"], a[f"arm{j}"]) for j in range(D)], L)
     env = Env()
     vals = {"match": {} if mk == 4 else object()}
